@@ -61,3 +61,20 @@ def feed (tryFrame : Bytes → Try α) (st : List α × Bytes) (chunk : Bytes) :
   (st.1 ++ r.1, r.2)
 
 end Zboss.Rx
+
+namespace Zboss.Rx
+
+/-- the scanner loop with stream offsets: (offset, frame, consumed length) of every accepted frame -/
+def extractAt (tryFrame : Bytes → Try α) : Nat → Nat → Bytes → List (Nat × α × Nat)
+  | 0, _, _ => []
+  | fuel + 1, off, buf =>
+    match tryFrame buf with
+    | .short => []
+    | .raised => []
+    | .invalid => extractAt tryFrame fuel (off + (buf.length - (resync buf).length)) (resync buf)
+    | .ok f n => (off, f, n) :: extractAt tryFrame fuel (off + n) (buf.drop n)
+
+/-- accepted frames of a whole stream with their positions -/
+def located (tryFrame : Bytes → Try α) (s : Bytes) : List (Nat × α × Nat) := extractAt tryFrame (s.length + 1) 0 s
+
+end Zboss.Rx
